@@ -610,6 +610,8 @@ def parse_body(b):
         if span and b.file is None and not span[0].startswith('/'):
             b.file, b.line = span
         st = text.strip()
+        if not st and 'def_id:' in raw:
+            st = raw.strip()
         if st.startswith('// + def_id:') and cur is not None and b.blocks[cur][0]:
             last = b.blocks[cur][0][-1]
             if last[0] == 'assign' and last[2][0] in ('coroutine', 'closure'):
